@@ -22,6 +22,9 @@ type c17DagScn struct {
 	Pkgs   []c17Pkg  `json:"pkgs"`
 	Roots  []string  `json:"roots"`
 	Order  []string  `json:"order"` // map iteration order to replay in the model: Go's own Sort result when it succeeded
+	// Warm: the lock contents the SAME DAG object was initialised with before (Resolve re-runs Init
+	// on its DAG after RemoveSelf); the model is per call and never sees it.
+	Warm   []c17Pkg  `json:"warm,omitempty"`
 	Oracle c17Oracle `json:"oracle"`
 }
 
@@ -145,6 +148,10 @@ func c17DagRun(s *c17DagScn) (c17DagObs, []Mon, string) {
 	d := c17NewDag(s.Upg)
 	var implied []dag.Node
 	var err error
+	if len(s.Warm) > 0 {
+		wl := c17LockPackages(s.Warm)
+		_ = Guard(func() { _, _ = d.Init(v1beta1.ToNodes(wl...)); _, _ = d.Sort() })
+	}
 	if p := Guard(func() { implied, err = d.Init(v1beta1.ToNodes(lps...)) }); p != "" {
 		obs.InitErr = "panic"
 		return obs, append(mons, Mon{Sig: "C17:dag-panic", Why: p}), "init-panic"
@@ -351,6 +358,10 @@ func c17DagEmit(c *Ctx, s c17DagScn, prefix string) {
 
 var c17Repos = []string{"xpkg.io/o/a", "xpkg.io/o/b", "xpkg.io/o/c", "xpkg.io/o/d", "xpkg.io/o/e", "xpkg.io/o/f", "xpkg.io/o/g", "xpkg.io/o/h"}
 
+// identifiers that differ in one identity dimension only: a string prefix of another, a trailing
+// separator, case, the registry, no registry, '-' versus '.', a tag
+var c17NearRepos = []string{"xpkg.io/o/a", "xpkg.io/o/ab", "xpkg.io/o/a/", "xpkg.io/O/a", "index.docker.io/o/a", "o/a", "xpkg.io/o/a-b", "xpkg.io/o/a.b"}
+
 func c17DagRandom(c *Ctx) {
 	r := c.Rng
 	s := c17DagScn{Upg: r.Bool()}
@@ -358,6 +369,10 @@ func c17DagRandom(c *Ctx) {
 	m := r.Range(1, k)   // of which in the lock
 	perm := r.Perm(k)
 	density := r.Range(1, 4)
+	c17Repos := c17Repos
+	if r.Chance(1, 4) {
+		c17Repos = c17NearRepos
+	}
 	for i := 0; i < m; i++ {
 		p := c17Pkg{Name: fmt.Sprintf("p%d", perm[i]), Source: c17Repos[perm[i]], Version: c17GenVersion(r), Typed: r.Chance(1, 8)}
 		if r.Chance(1, 12) {
@@ -396,6 +411,17 @@ func c17DagRandom(c *Ctx) {
 	case 2: // dependency on the empty identifier
 		i := r.Intn(len(s.Pkgs))
 		s.Pkgs[i].Deps = append(s.Pkgs[i].Deps, c17Dep{Pkg: "", Con: "*"})
+	}
+	if r.Chance(1, 4) { // the DAG object has been used before
+		for i, n := 0, r.Range(1, 3); i < n; i++ {
+			w := c17Pkg{Name: fmt.Sprintf("w%d", i), Source: c17Repos[r.Intn(len(c17Repos))], Version: c17GenVersion(r)}
+			for j := 0; j < 2; j++ {
+				if r.Bool() {
+					w.Deps = append(w.Deps, c17Dep{Pkg: c17Repos[r.Intn(len(c17Repos))], Con: c17GenConstraint(r)})
+				}
+			}
+			s.Warm = append(s.Warm, w)
+		}
 	}
 	nroots := r.Intn(4)
 	for i := 0; i < nroots; i++ {
